@@ -16,7 +16,7 @@ class C07(E1Prop):
 
     def make_history(self, rng):
         from ..batchdb import gen
-        return gen.history(rng, cancel_bias=0.07, special=0.15, weights={'jp-cancel-path': 6.0})
+        return gen.history(rng, cancel_bias=0.07, special=0.25, weights={'jp-cancel-path': 8.0}, knobs={'jp_jobs': 0.4})
 
     def nontrivial(self, r):
         return any(t in r.tags for t in self.nontrivial_tags)
